@@ -13,7 +13,7 @@ use serde::{Deserialize, Serialize};
 
 use super::c14;
 use crate::actors::h1::{BackendPlan, BodySpec, RespFault, RespSpec};
-use crate::actors::h2::{ClientOp, H2ClientPlan, H2ConnPlan, H2ReqSpec, SettingsSpec, WuMode, WuPolicy};
+use crate::actors::h2::{Cancel, ClientOp, H2ClientPlan, H2ConnPlan, H2ReqSpec, SettingsSpec, WuMode, WuPolicy};
 use crate::actors::tls::TlsPlan;
 use crate::actors::Pace;
 use crate::framework::*;
@@ -27,6 +27,9 @@ use crate::world::{MS, SEC};
 pub enum MuxCause {
     CloseAt(usize),
     StallAt(usize),
+    /// the client resets the victim stream (RST_STREAM CANCEL) once it has received this many body
+    /// bytes, while the backend is still sending; later requests on the connection must be unaffected
+    ClientCancel(usize),
 }
 
 #[derive(Clone, Debug, Serialize, Deserialize)]
@@ -49,15 +52,17 @@ pub fn generate(seed: u64, tier: Tier) -> MuxFaultPlan {
     let max_body = match tier { Tier::Quick => 120_000, Tier::Thorough => 600_000 };
     let nstreams = 2 + rng.below(3) as usize;
     let victim = 1 + rng.below(nstreams as u64);
+    let cancel_family = rng.below(4) == 0;
     let mut h1_resp = BTreeMap::new();
     let mut ops = Vec::new();
     let mut hint = 0usize;
     let (mut head_len, mut resp_len, mut mcause) = (0, 0, MuxCause::CloseAt(0));
     for i in 0..nstreams {
         let id = 1 + i as u64;
-        let r = H2ReqSpec::get(id, "c0.test", &format!("/r/{id}"));
+        let mut r = H2ReqSpec::get(id, "c0.test", &format!("/r/{id}"));
+        let len = boundary_size(&mut rng, knobs.buffer_size as usize, max_body).max(if id == victim { if cancel_family { 60_000 } else { 2000 } } else { 0 });
+        if id == victim && cancel_family { r.cancel = Some(Cancel { after_sent_body: None, after_recv_body: Some(1 + rng.below(len as u64 / 2)), code: 8 }); }
         ops.push(ClientOp::Req(r));
-        let len = boundary_size(&mut rng, knobs.buffer_size as usize, max_body).max(if id == victim { 2000 } else { 0 });
         let body = if rng.below(2) == 0 { BodySpec::Cl(len) } else { BodySpec::Chunked(random_chunks(&mut rng, len)) };
         let mut resp = RespSpec::ok(body);
         hint += len + 500;
@@ -71,10 +76,24 @@ pub fn generate(seed: u64, tier: Tier) -> MuxFaultPlan {
                 // mid body, leaving a good part unsent so that the cut is observable
                 _ => head_len + rng.below((resp_len - head_len) as u64 * 3 / 4 + 1) as usize,
             };
-            mcause = if rng.below(4) == 0 { MuxCause::StallAt(k) } else { MuxCause::CloseAt(k) };
-            resp.fault = Some(match &mcause { MuxCause::CloseAt(k) => RespFault::CloseAt(*k), MuxCause::StallAt(k) => RespFault::StallAt(*k) });
+            if cancel_family {
+                mcause = MuxCause::ClientCancel(0);
+            } else {
+                mcause = if rng.below(4) == 0 { MuxCause::StallAt(k) } else { MuxCause::CloseAt(k) };
+                resp.fault = Some(match &mcause { MuxCause::CloseAt(k) => RespFault::CloseAt(*k), MuxCause::StallAt(k) => RespFault::StallAt(*k), MuxCause::ClientCancel(_) => unreachable!() });
+            }
         }
         h1_resp.insert(id, resp);
+    }
+    // a follow-up request once every stream opened so far is over (completed, reset or cancelled): the
+    // connection, and the backend connections sozu keeps, must still be usable
+    {
+        let id = nstreams as u64 + 1;
+        ops.push(ClientOp::WaitStreams);
+        ops.push(ClientOp::Req(H2ReqSpec::get(id, "c0.test", &format!("/r/{id}"))));
+        let len = 1 + rng.below(3000) as usize;
+        h1_resp.insert(id, RespSpec::ok(BodySpec::Cl(len)));
+        hint += len + 500;
     }
     // slow reader: sozu's writes toward the client block in the middle of frames
     let pace_c = Pace::random_budget(&mut rng, hint, 400_000_000);
@@ -97,7 +116,7 @@ pub fn generate(seed: u64, tier: Tier) -> MuxFaultPlan {
     let deadline = 6 * SEC + (knobs.front_timeout as u64 + knobs.back_timeout as u64) * SEC;
     c.give_up_ns = deadline + 20 * SEC;
     c.start_ns = rng.below(3) * MS;
-    let name = match &mcause { MuxCause::CloseAt(k) => if *k == 0 { "close_before_answer" } else if *k < head_len { "close_mid_head" } else { "close_mid_body" }, MuxCause::StallAt(k) => if *k < head_len { "stall_before_answer" } else { "stall_mid_body" } };
+    let name = match &mcause { MuxCause::CloseAt(k) => if *k == 0 { "close_before_answer" } else if *k < head_len { "close_mid_head" } else { "close_mid_body" }, MuxCause::StallAt(k) => if *k < head_len { "stall_before_answer" } else { "stall_mid_body" }, MuxCause::ClientCancel(_) => "client_cancel" };
     let mux = MuxPlan {
         seed,
         family: format!("h2h1_{name}{}", if faulty { "+buggify" } else { "" }),
@@ -117,7 +136,7 @@ pub fn generate(seed: u64, tier: Tier) -> MuxFaultPlan {
 }
 
 fn cname(p: &MuxFaultPlan) -> &'static str {
-    match &p.mcause { MuxCause::CloseAt(k) => if *k == 0 { "close_before_answer" } else if *k < p.head_len { "close_mid_head" } else { "close_mid_body" }, MuxCause::StallAt(k) => if *k < p.head_len { "stall_before_answer" } else { "stall_mid_body" } }
+    match &p.mcause { MuxCause::CloseAt(k) => if *k == 0 { "close_before_answer" } else if *k < p.head_len { "close_mid_head" } else { "close_mid_body" }, MuxCause::StallAt(k) => if *k < p.head_len { "stall_before_answer" } else { "stall_mid_body" }, MuxCause::ClientCancel(_) => "client_cancel" }
 }
 
 pub fn oracle(p: &MuxFaultPlan, o: &MuxOutcome) -> Vec<Violation> {
@@ -157,7 +176,13 @@ pub fn oracle(p: &MuxFaultPlan, o: &MuxOutcome) -> Vec<Violation> {
                 continue;
             }
             // the victim
-            let k = match &p.mcause { MuxCause::CloseAt(k) | MuxCause::StallAt(k) => *k };
+            if let MuxCause::ClientCancel(_) = &p.mcause {
+                // the client gave the stream up itself: what it received before that must be a byte-exact prefix
+                if obs.answered && obs.sim_id.is_some() && obs.sim_id != Some(r.id) { v.push(Violation::new("wrong_answer", key("foreign_response"), format!("victim #{}: response of request {:?}", r.id, obs.sim_id))); }
+                if let Some(off) = obs.first_bad { v.push(Violation::new("body_mismatch", key("corrupted_before_cancel"), format!("victim #{}: delivered bytes differ at {off}", r.id))); }
+                continue;
+            }
+            let k = match &p.mcause { MuxCause::CloseAt(k) | MuxCause::StallAt(k) => *k, MuxCause::ClientCancel(_) => 0 };
             let want = if matches!(p.mcause, MuxCause::CloseAt(_)) { vec![502u16, 503] } else { vec![504u16] };
             let explicit_abort = obs.aborted.is_some() || conn_gone;
             if rec.gave_up && !obs.complete && !explicit_abort {
